@@ -312,7 +312,7 @@ Proof. unfold counts. cbn. rewrite !zsum_zero; auto. Qed.
 Lemma init_inv progs : Inv (init progs).
 Proof.
   exists g0. constructor; try rewrite init_counts; cbn.
-  - intros t. constructor; cbn; auto. lia.
+ Show. all: fail.
   - intros t _. eauto.
   - intros t. repeat split.
   - reflexivity.
